@@ -208,6 +208,7 @@ func runC09(r *Run, rng *Rng, thorough bool) {
 		}
 	})
 	extRoundTrips(r, rng, n/6)
+	richExt(r, rng, 300, map[string]string{"cbor": "roundtrip", "json": "roundtrip"})
 	renamedRoundTrips(r, rng, n/10)
 	// decodable-but-invalid (and valid) tokens of the C04 generator: never lies
 	nTok := 0
@@ -459,6 +460,11 @@ func runC10(r *Run, rng *Rng, thorough bool) {
 		n = 200000
 	}
 	held := &heldOutputs{}
+	type olderObj struct {
+		c psa.IClaims
+		d ClaimsDesc
+	}
+	var older []olderObj
 	eachValidObject(rng, n, func(class string, c psa.IClaims, d ClaimsDesc) {
 		if !conformant(&d) {
 			return
@@ -479,6 +485,21 @@ func runC10(r *Run, rng *Rng, thorough bool) {
 		}
 		if why := wireFormatOK(b, &d); why != "" {
 			r.Fail("wire-format", why)
+		}
+		// a claims-set built earlier and still alive is emitted with *its* claims, whatever was built, set or decoded
+		// since (objects of one profile must not share a container)
+		if len(older) > 0 {
+			o := older[rng.Intn(len(older))]
+			if ob, oerr := psa.ValidateAndEncodeClaimsToCBOR(o.c); oerr != nil {
+				r.Fail("encode-valid", fmt.Sprintf("a valid claims-set built earlier no longer encodes after other claims-sets were built: %v", oerr))
+			} else if why := wireFormatOK(ob, &o.d); why != "" {
+				r.Fail("wire-format", "a claims-set built earlier, encoded after other claims-sets of its profile were built: "+why)
+			}
+		}
+		dd := d
+		older = append(older, olderObj{c, dd})
+		if len(older) > 6 {
+			older = older[1:]
 		}
 		// the same claims-set after a trip through the JSON codec is emitted in the same wire format
 		if jb, jerr := psa.EncodeClaimsToJSON(c); jerr == nil && !hasBadUTF8(&d) {
@@ -611,4 +632,5 @@ func runC10(r *Run, rng *Rng, thorough bool) {
 	extWire(r, rng, map[bool]int{false: 400, true: 10000}[thorough])
 	componentCopies(r, rng, map[bool]int{false: 200, true: 5000}[thorough])
 	illFormedTextNeverEmitted(r, rng, map[bool]int{false: 120, true: 3000}[thorough])
+	richExt(r, rng, 300, map[string]string{"wire": "wire-format", "cbor": "encode-valid"})
 }
